@@ -12,6 +12,7 @@ RULE = ("plans: timeouts.idle / timeouts.udp each in {absent,0,1,2,5,30,600,3600
         "socks5 UDP associate, reverse udp) x traffic pattern (silent, one-directional trickle just under the period, burst then silence, "
         "both directions alternating) through the real main() start-up wiring; non-trivial = the tunnel was established and the run "
         "observed either an idle close or a survival past the deadline; distinct = distinct (config, pattern) x event-order hash")
+RULE_MORE = 'Later additions: wall-clock steps; handshakes slower than the period; practically infinite values; a short earlier tunnel and a pause before the measured one; half-closed and slowly draining tunnels; diverted (TPROXY TCP) and reverse-TCP tunnels with timeouts.udp different from timeouts.idle.'
 LEVEL_TEXT = ("seeded exploration through the real main(): the configured timeouts reach the registry only through start-up order, so each plan "
               "boots the whole binary with generated timeouts and measures on the virtual clock when the proxy closes an idle tunnel "
               "(EOF/reset seen by the client, or the record's terminal timestamp for UDP sessions); hours of idle time cost microseconds")
